@@ -265,10 +265,14 @@ func TestZZReplay(t *testing.T) {
 		}()
 		h()
 	}()
+	limit := 60
+	if n, ok := zzModel.Params["__native_s"]; ok && n > 0 {
+		limit = n // harnesses whose native twin needs real time (quiet periods of the scan detector)
+	}
 	select {
 	case <-done:
-	case <-zztime2.After(60 * zztime2.Second):
-		zzfmt2.Println("ZZ-HANG: harness did not finish within 60 s")
+	case <-zztime2.After(zztime2.Duration(limit) * zztime2.Second):
+		zzfmt2.Println("ZZ-HANG: harness did not finish within", limit, "s")
 		t.FailNow()
 	}
 	if zzFailures > 0 {
